@@ -70,11 +70,15 @@ impl<T: TokenStream> ParserBase<T> {
 
     #[inline]
     pub(crate) fn start_node(&mut self, kind: SyntaxKind) {
+        #[cfg(feature = "verif")]
+        crate::verif::step();
         self.builder.start_node(kind.into());
     }
 
     #[inline]
     pub(crate) fn start_node_at(&mut self, checkpoint: Checkpoint, kind: SyntaxKind) {
+        #[cfg(feature = "verif")]
+        crate::verif::step();
         self.builder.start_node_at(checkpoint, kind.into());
     }
 
@@ -109,6 +113,8 @@ impl<T: TokenStream> ParserBase<T> {
     }
 
     pub(crate) fn error(&mut self, message: impl Into<String>) {
+        #[cfg(feature = "verif")]
+        crate::verif::step();
         let range = TextRange::new(
             self.current_range
                 .start
@@ -185,6 +191,8 @@ impl<T: TokenStream> ParserBase<T> {
     }
 
     pub fn lex(&mut self) {
+        #[cfg(feature = "verif")]
+        crate::verif::step();
         let start = self.token_stream.cursor();
         self.current = self.token_stream.eat();
         let end = self.token_stream.cursor();
